@@ -517,6 +517,48 @@ def stage_bitpairs(ctx, have_model):
         ctx.coverage["traces_validated_against_impl"] += len(scases) - len(mism)
 
 
+# =============================================================================== guarded key generation
+class KeygenTimeout(Exception):
+    """generate_keypair searches for a 'good' Weil pairing by brute force: with broken arithmetic it never ends"""
+
+
+_DEADLINE = [None]       # absolute time by which the current end-to-end stage has to finish
+
+
+def _on_alarm(signum, frame):
+    raise KeygenTimeout
+
+
+def guarded(fn, seconds=90):
+    """Run fn() in the main thread under an alarm (nested inside the stage's overall deadline)."""
+    import signal
+    import time
+    now = time.time()
+    limit = now + seconds if _DEADLINE[0] is None else min(now + seconds, _DEADLINE[0])
+    signal.signal(signal.SIGALRM, _on_alarm)
+    signal.alarm(max(1, int(limit - now) + 1))
+    try:
+        return fn()
+    finally:
+        if _DEADLINE[0] is None:
+            signal.alarm(0)
+        else:
+            signal.alarm(max(1, int(_DEADLINE[0] - time.time()) + 1))
+
+
+def with_deadline(fn, seconds):
+    import signal
+    import time
+    _DEADLINE[0] = time.time() + seconds
+    signal.signal(signal.SIGALRM, _on_alarm)
+    signal.alarm(int(seconds) + 1)
+    try:
+        return fn()
+    finally:
+        signal.alarm(0)
+        _DEADLINE[0] = None
+
+
 # =============================================================================== end to end, algorithm level
 HASHES = {
     "sha256_4": (lambda b: int.from_bytes(hashlib.sha256(b).digest()[:4], "big"), 32),
@@ -532,7 +574,7 @@ def exact_alg(hash_mode, key_size):
 
 def exact_run(alg, hash_mode, value, others, order_fn, r):
     """One honest exact-match proof with a fresh key. Returns observations."""
-    sk = alg.generate_secret_key()
+    sk = guarded(alg.generate_secret_key)
     pk = sk.public_key()
     blob = alg.attest(pk, value)
     cls = alg.get_attestation_class()
@@ -613,7 +655,7 @@ def small_bitspace_run(ctx, r, bitspace, rel_cases):
     """attest()/create_challenge()/create_challenge_response() directly: all orders and all subsets."""
     from ipv8.attestation.wallet.bonehexact import attestation as A
     from ipv8.attestation.wallet.primitives.boneh import generate_keypair
-    pk, sk = generate_keypair(32)
+    pk, sk = guarded(lambda: generate_keypair(32))
     value = r.getrandbits(bitspace)
     att = A.attest(pk, value, bitspace)
     truth = profile_of_int(value, bitspace)
@@ -832,11 +874,11 @@ def stage_range(ctx, have_model):
             a, b = 18, 200
         else:
             a = r.choice([0, 1, 5, 18, 1000, r.randrange(0, 5000)])
-            b = a + r.choice([0, 1, 2, 10, 182, 4000, r.randrange(0, 60000)])
+            b = max(1, a + r.choice([0, 1, 2, 10, 182, 4000, r.randrange(0, 60000)]))   # max = 0 is not supported (EL.create)
         v = r.choice([a, b, (a + b) // 2, r.randint(a, b), r.randint(a, b)])
         ks = 32 if r.random() < 0.8 else r.choice([40, 48, 64])
         alg = range_alg(a, b, ks)
-        sk = alg.generate_secret_key()
+        sk = guarded(alg.generate_secret_key)
         pk = sk.public_key()
         case = {"kind": "range", "a": a, "b": b, "v": v, "key_size": ks}
         with patched_range(r) as d:
@@ -851,6 +893,8 @@ def stage_range(ctx, have_model):
                 ctx.violation("serialisation/range-attestation-roundtrip", "range attestation does not survive serialisation", case)
             challenges = alg.create_challenges(att_v.PK, att_v)
             agg = alg.create_certainty_aggregate(att_v)
+            if alg.certainty(b"\x01", agg) != 0.0:
+                ctx.violation("range/accepted-without-any-answer", "certainty %r before any challenge was answered" % alg.certainty(b"\x01", agg), case)
             for ch in challenges:
                 resp = alg.create_challenge_response(sk, att_p, ch)
                 alg.process_challenge_response(agg, ch, resp)
@@ -931,8 +975,10 @@ def stage_range(ctx, have_model):
                     meta.append(case_o)
     # forced draws: degenerate randomness, model correspondence only (not judged by the oracle)
     from ipv8.attestation.wallet.primitives.boneh import generate_keypair
-    pk, sk = generate_keypair(32)
-    for forced in ([5, 6, 7, 0], [5, 6, 7, 1], [5, 6, 7, 2], [5, 6, 7, 3], [0, 0, 0, 1], [1, 1, 1, 2], [9, 9, 9, 1 << 20]):
+    pk, sk = guarded(lambda: generate_keypair(32))
+    # (the draws [.., w=3, m4=5, m1=20001] leave m2 = mst - m1 - m4^2 negative for 30 in [18, 200]: y <= 0)
+    for forced in ([5, 6, 7, 0], [5, 6, 7, 1], [5, 6, 7, 2], [5, 6, 7, 3], [0, 0, 0, 1], [1, 1, 1, 2], [9, 9, 9, 1 << 20],
+                   [5, 6, 7, 3, 5, 20001], [5, 6, 7, 4, 7, 35000]):
         for (a, b, v) in [(18, 200, 18), (18, 200, 30), (5, 5, 5), (0, 3, 1)]:
             stats["forced"] += 1
             with patched_range(r, forced) as d:
@@ -1049,7 +1095,7 @@ async def community_run(hash_mode_fmt, value, others, cheat, r):
                 nd_.network.discover_services(pub, [AttestationCommunity.community_id])
     prover, verifier = nodes[0].overlay, nodes[1].overlay
     alg = prover.get_id_algorithm(hash_mode_fmt)
-    sk = alg.generate_secret_key()
+    sk = alg.generate_secret_key()       # (runs inside the event loop; stage_community probes key generation first)
     blob = alg.attest(sk.public_key(), value)
     att = alg.get_attestation_class().unserialize_private(sk, blob, hash_mode_fmt)
     ahash = att.get_hash()
@@ -1327,7 +1373,10 @@ def replay(path):
     for v in js.get("violations", []):
         m = MiniCtx()
         try:
-            print(rerun_case(m, v["case"]))
+            print(with_deadline(lambda: rerun_case(m, v["case"]), 600))
+        except KeygenTimeout:
+            print("replay did not terminate within 600 s (key generation / proof loops)")
+            rc = 1
         except Exception as e:  # noqa: BLE001
             print("replay raised", type(e).__name__, e)
             rc = 1
@@ -1354,7 +1403,9 @@ def run(ctx):
         for v in json.load(open(f)).get("violations", []):
             m = MiniCtx(ctx.seed)
             try:
-                rerun_case(m, v["case"])
+                with_deadline(lambda: rerun_case(m, v["case"]), 120)
+            except KeygenTimeout:
+                ctx.broke("corpus case %s: the implementation does not terminate (key generation / proof loops)" % os.path.basename(f))
             except Exception as e:  # noqa: BLE001
                 ctx.broke("corpus case %s raised" % os.path.basename(f), repr(e))
             for w in m.violations:
@@ -1390,13 +1441,28 @@ def run(ctx):
                        "key generation itself (Rust prime generation, Weil pairing search) is exercised, not modelled"]
     import time
     walls = {"proofs_and_model_build": round(time.time() - ctx.t0, 1)}
+    keygen_ok = True
     for name, fn in (("fp2", stage_fp2), ("bitpairs", stage_bitpairs), ("ser", stage_ser), ("exact", stage_exact),
                      ("range", stage_range)):
         t = time.time()
-        fn(ctx, have_model)
+        if name in ("exact", "range") and not keygen_ok:
+            continue
+        try:
+            if name in ("exact", "range"):
+                with_deadline(lambda: fn(ctx, have_model), 900 if ctx.quick else 3000)
+            else:
+                fn(ctx, have_model)
+        except KeygenTimeout:
+            keygen_ok = False
+            ctx.broke("the implementation does not terminate (key generation finds no good Weil pairing, or a proof "
+                      "loops) within the time limit: remaining end-to-end stages skipped", "stage %s" % name)
         walls[name] = round(time.time() - t, 1)
     t = time.time()
-    stage_community(ctx)
+    if keygen_ok:
+        try:
+            with_deadline(lambda: stage_community(ctx), 600 if ctx.quick else 1800)
+        except KeygenTimeout:
+            ctx.broke("the two-node community run does not terminate within the time limit", "stage community")
     walls["community"] = round(time.time() - t, 1)
     ctx.extra["stage_wall_s"] = walls
     ctx.coverage["rule"] = (
